@@ -41,32 +41,38 @@ noncomputable def sqrtDoc (G r : ℝ) : ℝ := G * Real.sqrt r
 
 theorem C06_buck (A rho C r : ℝ) : ev [A, rho, C] buck_call r = buckDoc A rho C r := by
   simp only [ev, evalR, envOf, List.getD_cons_zero, List.getD_cons_succ, buck_call, buckDoc]
+  form_close
 theorem C06_bornmayer (A rho r : ℝ) : ev [A, rho] bornmayer_call r = bornmayerDoc A rho r := by
   simp only [ev, evalR, envOf, List.getD_cons_zero, List.getD_cons_succ, bornmayer_call, bornmayerDoc]
-  norm_num
+  form_close
 theorem C06_coul (qi qj r : ℝ) : ev [qi, qj] coul_call r = coulDoc qi qj r := by
   simp only [ev, evalR, envOf, List.getD_cons_zero, List.getD_cons_succ, coul_call, coulDoc, eps0]
-  norm_num
+  form_close
 theorem C06_constant (c r : ℝ) : ev [c] constant_call r = c := by
   simp only [ev, evalR, envOf, List.getD_cons_zero, constant_call]
+  form_close
 theorem C06_zero (r : ℝ) : ev [] zero_call r = 0 := by
   simp only [ev, evalR, zero_call]
-  norm_num
+  form_close
 theorem C06_exponential (A n r : ℝ) : ev [A, n] exponential_call r = exponentialDoc A n r := by
   simp only [ev, evalR, envOf, List.getD_cons_zero, List.getD_cons_succ, exponential_call, exponentialDoc]
+  form_close
 theorem C06_exp_spline (B0 B1 B2 B3 B4 B5 C r : ℝ) :
     ev [B0, B1, B2, B3, B4, B5, C] exp_spline_call r = expSplineDoc B0 B1 B2 B3 B4 B5 C r := by
   simp only [ev, evalR, envOf, List.getD_cons_zero, List.getD_cons_succ, exp_spline_call, expSplineDoc]
+  form_close
 theorem C06_hbnd (A B r : ℝ) : ev [A, B] hbnd_call r = hbndDoc A B r := by
   simp only [ev, evalR, envOf, List.getD_cons_zero, List.getD_cons_succ, hbnd_call, hbndDoc]
+  form_close
 theorem C06_lj (eps sigma r : ℝ) : ev [eps, sigma] lj_call r = ljDoc eps sigma r := by
   simp only [ev, evalR, envOf, List.getD_cons_zero, List.getD_cons_succ, lj_call, ljDoc]
-  norm_num
+  form_close
 theorem C06_morse (gamma rstar Dp r : ℝ) : ev [gamma, rstar, Dp] morse_call r = morseDoc gamma rstar Dp r := by
   simp only [ev, evalR, envOf, List.getD_cons_zero, List.getD_cons_succ, morse_call, morseDoc]
-  norm_num
+  form_close
 theorem C06_sqrt (G r : ℝ) : ev [G] sqrt_call r = sqrtDoc G r := by
   simp only [ev, evalR, envOf, List.getD_cons_zero, sqrt_call, sqrtDoc]
+  form_close
 
 /-! ### ZBL: the formula the code's own reference (`_as_sympy`) states, with the 1985 ZBL constants.
     (The reference manual prints the "universal" coefficient set 0.46850 / 0.18175, 3.19980 … instead – a recorded finding.) -/
@@ -78,7 +84,7 @@ noncomputable def zblDoc (z1 z2 r : ℝ) : ℝ :=
 
 theorem C06_zbl (z1 z2 r : ℝ) : ev [z1, z2] zbl_call r = zblDoc z1 z2 r := by
   simp only [ev, evalR, envOf, List.getD_cons_zero, List.getD_cons_succ, zbl_call, zblDoc]
-  norm_num
+  form_close
 
 /-! ### Tang-Toennies: documented formula (energies in Hartree and lengths in bohr inside, converted with 27.211 eV and 0.5292 Å).
     The code is a machine-expanded form whose decimal coefficients stand for closed forms such as `27.211 * 0.5292^10`;
